@@ -45,6 +45,8 @@ func devRun(args []string) {
 	maxPaths := fs.Int("paths", 20000, "max paths")
 	params := fs.String("params", "", "k=v,k=v")
 	solver := fs.String("solver", "z3", "solver")
+	wallMs := fs.Int64("wall", 0, "per-job wall limit in ms")
+	small := fs.Int64("small", 0, "enumerate symbolic sizes up to this value (default 64)")
 	fs.Parse(args)
 	repo := envOr("VERIF_REPO", "/repo")
 	P, err := interp.Load(repo, module, envOr("VERIF_HARNESS", verifDir+"/harness"), loadPkgs())
@@ -66,7 +68,7 @@ func devRun(args []string) {
 	}
 	var specs []interp.JobSpec
 	for _, f := range fs.Args() {
-		specs = append(specs, interp.JobSpec{Pkg: *pkg, Func: f, Params: pm, MaxPaths: *maxPaths})
+		specs = append(specs, interp.JobSpec{Pkg: *pkg, Func: f, Params: pm, MaxPaths: *maxPaths, SmallSize: *small, MaxWallMs: *wallMs})
 	}
 	jobs := P.RunJobs(specs, *workers, *solver)
 	for _, j := range jobs {
